@@ -211,20 +211,35 @@ func runC02(c *Ctx) {
 		return f != nil && f.Name() == "GetMeasurement" && f.Signature.Recv() != nil && namedIs(f.Signature.Recv().Type(), "github.com/google/go-sev-guest/proto/sevsnp", "Report")
 	}
 	nClos := 0
-	for _, f := range c.P.RepoFunctions() {
-		if load.RelPkg(f) != "verify" || f.Parent() == nil || c.isTestFunc(f) || !returnsError(f) || len(f.Params) != 2 {
+	var vbodies []*ssa.Function
+	for _, m := range c.validatorMakers() {
+		if load.RelPkg(m) == "verify" {
+			vbodies = append(vbodies, validatorBodies(m)...)
+		}
+	}
+	for _, f := range vbodies {
+		if len(f.Params) < 2 {
 			continue
 		}
-		if !namedIs(f.Params[0].Type(), "github.com/google/go-sev-guest/proto/sevsnp", "Attestation") {
-			continue
-		}
+		att := f.Params[len(f.Params)-2] // the attestation (a method body has its receiver in front)
 		nClos++
 		name := load.FuncName(f)
+		isVerifyCall := func(cal *ssa.Function) bool {
+			return cal != nil && load.RelPkg(cal) == "verify" && returnsError(cal) && optionsParam(cal) != nil
+		}
+		region := map[*ssa.Function]bool{}
+		for _, g := range unexportedRegion(f) {
+			if g != f && !isVerifyCall(g) {
+				region[g] = true
+			}
+		}
+		sl := flow.NewSlicer(c.P)
+		sl.LiftParams = 3
 		const bLen uint = 0
 		const bMeas uint = 1
 		gates, auths := 0, 0
 		r := &esp.Rule{Name: "C02.R2"}
-		r.Relevant = func(*ssa.Function) bool { return false }
+		r.Relevant = func(g *ssa.Function) bool { return region[g] }
 		r.Match = func(in ssa.Instruction) []esp.Ev {
 			switch v := in.(type) {
 			case *ssa.BinOp:
@@ -237,7 +252,7 @@ func runC02(c *Ctx) {
 				}
 			case ssa.CallInstruction:
 				cal := v.Common().StaticCallee()
-				if cal != nil && load.RelPkg(cal) == "verify" && returnsError(cal) && optionsParam(cal) != nil {
+				if isVerifyCall(cal) {
 					auths++
 					return []esp.Ev{{ID: 1, Name: "verify " + cal.Name(), ErrIdx: -1, BoolIdx: -1}}
 				}
@@ -282,7 +297,11 @@ func runC02(c *Ctx) {
 		}
 		// the measurement handed on is the report's
 		handed := 0
-		for _, g := range []*ssa.Function{f} {
+		handedIn := []*ssa.Function{f}
+		for g := range region {
+			handedIn = append(handedIn, g)
+		}
+		for _, g := range handedIn {
 			for _, b := range g.Blocks {
 				for _, in := range b.Instrs {
 					st, ok := in.(*ssa.Store)
@@ -294,7 +313,7 @@ func runC02(c *Ctx) {
 						continue
 					}
 					handed++
-					okV := sl.Derives(st.Val, reportMeas) && sl.Derives(st.Val, func(x ssa.Value) bool { return x == f.Params[0] })
+					okV := sl.Derives(st.Val, reportMeas) && sl.Derives(st.Val, func(x ssa.Value) bool { return x == att })
 					c.S.Check(okV, "R2", name+":measurement source", c.pos(st.Pos()), "SNPOptions.Measurement is the attestation report's measurement", "the measurement handed to the endorsement check is not the attestation report's measurement")
 				}
 			}
